@@ -227,11 +227,18 @@ Definition p_map_fields (s : list N) : option (list (list N * list N)) :=
 (* ---------------------------------------------------------------------------------------- *)
 (* parser: typed maps (parser/record/value/map/{info,format,filter,alternative_allele,contig}.rs) *)
 
-Definition p_num (s : list N) : option hnum :=
+(* info/number.rs and format/number.rs::parse_number: FORMAT also knows LA LR LG P M (3f7219b) *)
+Definition p_num (k : mkind) (s : list N) : option hnum :=
   match s with
   | [] => None
   | _ => if bytes_eqb s [65] then Some HA else if bytes_eqb s [82] then Some HR
-         else if bytes_eqb s [71] then Some HG else if bytes_eqb s [46] then Some HDot
+         else if bytes_eqb s [71] then Some HG
+         else if (match k with KFormat => true | _ => false end) && bytes_eqb s [76; 65] then Some HLA
+         else if (match k with KFormat => true | _ => false end) && bytes_eqb s [76; 82] then Some HLR
+         else if (match k with KFormat => true | _ => false end) && bytes_eqb s [76; 71] then Some HLG
+         else if (match k with KFormat => true | _ => false end) && bytes_eqb s [80] then Some HP
+         else if (match k with KFormat => true | _ => false end) && bytes_eqb s [77] then Some HM
+         else if bytes_eqb s [46] then Some HDot
          else match parse_usize s with Some n => Some (HCount n) | None => None end
   end.
 
@@ -267,7 +274,7 @@ Definition step (k : mkind) (st : mstate) (kv : list N * list N) : option mstate
                         s_md5 := s_md5 st; s_url := s_url st; s_idx := s_idx st; s_others := s_others st |}
     | None => None end
   else if uses_numty k && bytes_eqb key t_Number then
-    match set_once (s_num st) (p_num v) with
+    match set_once (s_num st) (p_num k v) with
     | Some x => Some {| s_id := s_id st; s_num := x; s_ty := s_ty st; s_desc := s_desc st; s_len := s_len st;
                         s_md5 := s_md5 st; s_url := s_url st; s_idx := s_idx st; s_others := s_others st |}
     | None => None end
